@@ -8,6 +8,7 @@ import (
 	"io"
 	"io/ioutil"
 	"log"
+	"math"
 	"os"
 )
 
@@ -58,12 +59,12 @@ func Edit(_ *log.Logger, inputArchive string, newHeaderJSONFile string, newMetad
 		newHeader.TileCompression = stringToCompression(newHeaderData.TileCompression)
 		newHeader.MinZoom = uint8(newHeaderData.MinZoom)
 		newHeader.MaxZoom = uint8(newHeaderData.MaxZoom)
-		newHeader.MinLonE7 = int32(newHeaderData.Bounds[0] * 10000000)
-		newHeader.MinLatE7 = int32(newHeaderData.Bounds[1] * 10000000)
-		newHeader.MaxLonE7 = int32(newHeaderData.Bounds[2] * 10000000)
-		newHeader.MaxLatE7 = int32(newHeaderData.Bounds[3] * 10000000)
-		newHeader.CenterLonE7 = int32(newHeaderData.Center[0] * 10000000)
-		newHeader.CenterLatE7 = int32(newHeaderData.Center[1] * 10000000)
+		newHeader.MinLonE7 = int32(math.Round(newHeaderData.Bounds[0] * 10000000))
+		newHeader.MinLatE7 = int32(math.Round(newHeaderData.Bounds[1] * 10000000))
+		newHeader.MaxLonE7 = int32(math.Round(newHeaderData.Bounds[2] * 10000000))
+		newHeader.MaxLatE7 = int32(math.Round(newHeaderData.Bounds[3] * 10000000))
+		newHeader.CenterLonE7 = int32(math.Round(newHeaderData.Center[0] * 10000000))
+		newHeader.CenterLatE7 = int32(math.Round(newHeaderData.Center[1] * 10000000))
 		newHeader.CenterZoom = uint8(newHeaderData.Center[2])
 	}
 
